@@ -33,14 +33,18 @@ pub const REGS: &[(&str, &str)] = &[
 ];
 
 /// what a marker descriptor returns: 0 = its tag with all arguments (default), 1 = the empty
-/// string, 2 = its tag wrapped in the separators the default renderings use
+/// string, 2 = its tag wrapped in the separators the default renderings use, 3 / 4 = its tag
+/// followed / preceded by a comma
 static STYLE: std::sync::atomic::AtomicU8 = std::sync::atomic::AtomicU8::new(0);
 
 fn mark(s: String) -> String {
     match STYLE.load(std::sync::atomic::Ordering::SeqCst) {
         0 => s,
         1 => String::new(),
-        _ => format!(",{};:", s),
+        2 => format!(",{};:", s),
+        // 3, 4: text that ends / starts with the separator of the default renderings
+        3 => format!("{},", s),
+        _ => format!(",{}", s),
     }
 }
 
@@ -282,7 +286,7 @@ fn style_cases() -> Vec<(u8, u32)> {
         }
     }
     let mut v = Vec::new();
-    for style in [1u8, 2] {
+    for style in [1u8, 2, 3, 4] {
         for c in &cfgs {
             v.push((style, *c));
         }
@@ -597,7 +601,7 @@ impl Prop for C18 {
                 out.at(i);
                 let (style, cfg) = cases[i as usize];
                 STYLE.store(style, std::sync::atomic::Ordering::SeqCst);
-                check_config(cfg, &progs, if style == 1 { "styles[empty]" } else { "styles[separators]" }, true, out);
+                check_config(cfg, &progs, ["", "styles[empty]", "styles[separators]", "styles[trailing-comma]", "styles[leading-comma]"][style as usize], true, out);
                 STYLE.store(0, std::sync::atomic::Ordering::SeqCst);
                 out.nontrivial.insert(cfg as u64 + ((style as u64) << 44));
                 out.count("states", 1);
